@@ -118,7 +118,7 @@ func (r *renderer) val(v ssa.Value, d int) string {
 		return r.val(x.Tuple, d+1) + "#" + fmt.Sprint(x.Index)
 	case *ssa.Field:
 		st := x.X.Type().Underlying().(*types.Struct)
-		return r.val(x.X, d+1) + "." + st.Field(x.Field).Name()
+		return r.val(x.X, d+1) + "." + canonFieldName(namedOf(x.X.Type()), st, x.Field)
 	case *ssa.FieldAddr:
 		if sf, ok := fieldOfAddr(x); ok {
 			return "&" + r.addrBase(x.X, d+1) + "." + sf.Name
@@ -543,7 +543,7 @@ func (r *renderer) allocContent(a *ssa.Alloc, d int) string {
 			}
 			if len(vals) > 0 {
 				sort.Strings(vals)
-				parts = append(parts, t.Field(i).Name()+": "+strings.Join(vals, "|"))
+				parts = append(parts, canonFieldName(namedOf(elem), t, i)+": "+strings.Join(vals, "|"))
 			}
 		}
 		if base != "" {
@@ -586,6 +586,14 @@ func (r *renderer) call(c *ssa.CallCommon, d int) string {
 	}
 	if c.IsInvoke() {
 		return r.val(c.Value, d+1) + "." + c.Method.Name() + "(" + strings.Join(args, ", ") + ")"
+	}
+	// len(x[a:b]) is b - a
+	if bi, ok := c.Value.(*ssa.Builtin); ok && bi.Name() == "len" && len(c.Args) == 1 {
+		if sl, ok := c.Args[0].(*ssa.Slice); ok && sl.Low != nil && sl.High != nil && sl.Max == nil {
+			if _, isArr := sl.X.Type().Underlying().(*types.Pointer); !isArr {
+				return "(" + r.val(sl.High, d+1) + " - " + r.val(sl.Low, d+1) + ")"
+			}
+		}
 	}
 	if f := c.StaticCallee(); f != nil {
 		// inline trivial module helpers: one block, one return, one result
